@@ -97,6 +97,29 @@ func cmdCheck(args []string) int {
 			}
 		}()
 		def.run(ctx, r, *tier)
+		if *tier == "thorough" {
+			// the same rules on other build configurations
+			for _, cfg := range []struct{ arch, os string }{{"386", ""}, {"", "windows"}} {
+				ctx2, err := loadRepo(loadOpts{repo: *repo, controls: !*noctl, goarch: cfg.arch, goos: cfg.os})
+				tag := "[GOARCH=" + cfg.arch + " GOOS=" + cfg.os + "] "
+				if err != nil {
+					r.undecided("E1-load", tag+"repository", 0, err.Error())
+					continue
+				}
+				r2 := newReport(*prop, ctx2)
+				def.run(ctx2, r2, *tier)
+				for _, o := range r2.Obls {
+					if o.control {
+						continue
+					}
+					o.Construct = tag + o.Construct
+					r.Obls = append(r.Obls, o)
+				}
+				r.Counts["configurations"]++
+			}
+			r.Counts["configurations"]++
+			runSelfTest(*prop, *repo, r)
+		}
 	}()
 	return r.finish(*tier, seed, start, cmdline)
 }
